@@ -26,6 +26,8 @@ func init() {
 func runC12(c *report.Ctx) {
 	p := c.P
 	ruleGapOracleIsTheChain(c)
+	ruleRollbackBeforeCursorMoves(c) // the used flag follows a reorg only if the rollback really unwinds
+	ruleChainFetcherHasNoMemory(c)
 	ruleBestHeightReadWhileParked(c) // a payment in a block the rescan skipped leaves the restored address listed unused
 	ruleStakingUseMarksStandardForm(c)
 	na := fn(c, pkgKeystore, "AddrManager", "nextAddresses")
